@@ -13,9 +13,10 @@ PROPERTY = "C01"
 LEVEL = "exploration"
 CHUNK = 16
 RULE = ("for each layout (s sensitive, c control features) every assignment sequence of n rows to feature values "
-        "(binary; ternary when s+c=1), n up to the layout bound; 5 metric programs (bare callable with per-sample "
+        "(binary; ternary when s+c=1), n up to the layout bound; 6 metric programs (bare callable with per-sample "
         "parameter, bare callable without, dict of four metrics with sample_params for one, functools.partial, dict "
-        "with the same function / a same-named function under several keys each with its own parameter array); the "
+        "with the same function / a same-named function under several keys each with its own parameter array, dict whose "
+        "key+parameter names concatenate to the same string); the "
         "metric is a spy returning an injective encoding of the row ids it was handed (and -1 if y_pred / the sample "
         "parameter were not sliced identically); reference = dict(feature tuple -> row ids) built by loops; "
         "non-trivial = at least two groups or an empty intersection; distinct = distinct (layout, assignment)")
@@ -74,6 +75,14 @@ def _mk_wsum2():
 
 
 _wsum2 = _mk_wsum2()
+
+
+def _wsum_bw(y_true, y_pred, b_w):
+    return float(np.sum(b_w))
+
+
+def _wsum_pred(y_true, y_pred, pred):
+    return float(np.sum(pred) + 1000.0 * np.sum(y_pred))
 
 
 def _cellval(obj, key):
@@ -143,6 +152,23 @@ def run_case(case):
             v = float(ce[t])
             if not ((math.isnan(v) and math.isnan(e)) or v == e):
                 V.append(viol("C01:same-name-function:sample-param-mixup", "cell %r = %r expected %r" % (t, v, e), e, v, snip))
+        # (f) metric keys / parameter names whose concatenation coincides ("a"+"b_w" vs "a_b"+"w"; "y"+"pred" vs the prediction column)
+        out["evals"] += 1
+        mff = MetricFrame(metrics={"a": _wsum_bw, "a_b": _wsum, "y": _wsum_pred}, y_true=ids, y_pred=10 * ids + 1, sensitive_features=sf,
+                          **({"control_features": cf} if c else {}), sample_params={"a": {"b_w": w1}, "a_b": {"w": w2}, "y": {"pred": w1 + w2}})
+        for key, fn_ in (("a", lambda r: sum(2.0 ** i for i in r)), ("a_b", lambda r: sum(2.0 ** (i + n) for i in r)),
+                         ("y", lambda r: sum(2.0 ** i + 2.0 ** (i + n) + 1000.0 * (10 * i + 1) for i in r))):
+            col = mff.by_group[key]
+            for t in col.index:
+                r = rows.get(as_tuple(t))
+                e = float(fn_(r)) if r else float("nan")
+                v = float(col[t])
+                if not ((math.isnan(v) and math.isnan(e)) or v == e):
+                    V.append(viol("C01:param-name-collision:%s" % key, "metric %r: cell %r = %r, expected %r (its own per-sample parameter / the real y_pred) for %s" % (
+                        key, t, v, e, describe(case)), e, v,
+                        "import numpy as np; from fairlearn.metrics import MetricFrame; f=lambda y_true,y_pred,b_w: float(np.sum(b_w)); g=lambda y_true,y_pred,w: float(np.sum(w)); "
+                        "print(MetricFrame(metrics={'a':f,'a_b':g}, y_true=[0,1], y_pred=[0,1], sensitive_features=['p','q'], sample_params={'a':{'b_w':[1,2]},'a_b':{'w':[4,8]}}).overall)"))
+                    break
     except Exception as ex:
         V.append(viol("C01:same-function-twice:raises-%s" % type(ex).__name__, "MetricFrame raised %r for %s" % (ex, describe(case)), None, repr(ex), snip))
     outcome = []
